@@ -636,6 +636,13 @@ class CFGBuilder:
             self.g.add_edge(b, t, l)
         if isinstance(e, ast.Constant):
             return ([(b, "true")], []) if e.value else ([], [(b, "false")])
+        if isinstance(e, ast.Compare) and len(e.ops) == 1 and isinstance(e.ops[0], (ast.Is, ast.IsNot)) and isinstance(e.left, ast.Constant) \
+                and isinstance(e.comparators[0], ast.Constant) and (e.left.value is None or e.comparators[0].value is None):
+            # `None is not None` / `'*' is not None`: an optional parameter of a helper analysed in place, given (or omitted) as a
+            # literal at this call site - one side only
+            same = (e.left.value is None) and (e.comparators[0].value is None)
+            truth = same if isinstance(e.ops[0], ast.Is) else not same
+            return ([(b, "true")], []) if truth else ([], [(b, "false")])
         return [(b, "true")], [(b, "false")]
 
     # ----------------------------------------------------------- statements
